@@ -1,7 +1,7 @@
 SPECIFICATION Spec
 CONSTANTS
-  Prog <- P_SRC
-  Procs = {1,2,3}
+  Prog <- P_S2RRC
+  Procs = {1,2,3,4}
   Fixed = FALSE
   EnableFirst = TRUE
   Mon = TRUE
